@@ -10,10 +10,21 @@ open FAVerif.IR FAVerif.FP FAVerif.FPQ FAVerif.SoftRound FAVerif.Refine
 variable {f : Fmt}
 
 /-- invariant: every value of the ℚ-environment is within the computed exponent bounds -/
+structure BRel (f : Fmt) (b : B) (q : ℚ) : Prop where
+  hi : |q| ≤ 2 ^ b.hi
+  ge : f.emin ≤ b.hi
+  lo : ∀ kl, b.lo = some kl → (2 : ℚ) ^ kl ≤ |q|
+  fin : b.fin = true → |q| ≤ Lmax f
+  nn : b.nn = true → 0 ≤ q
+  tv : ∀ t, b.tv = some t → q = q2b t
+
 structure BInv (f : Fmt) (st : List B) (envQ : List ℚ) : Prop where
   len : st.length = envQ.length
-  rel : ∀ (i : Nat) (b : B), st[i]? = some b → ∃ q, envQ[i]? = some q ∧ |q| ≤ 2 ^ b.hi ∧ f.emin ≤ b.hi ∧
-    (∀ kl, b.lo = some kl → (2 : ℚ) ^ kl ≤ |q|) ∧ (b.fin = true → |q| ≤ Lmax f)
+  rel : ∀ (i : Nat) (b : B), st[i]? = some b → ∃ q, envQ[i]? = some q ∧ BRel f b q
+
+/-- relation for a node without side information -/
+lemma BRel.plain {f : Fmt} {k : Int} {q : ℚ} (h1 : |q| ≤ 2 ^ k) (h2 : f.emin ≤ k) : BRel f { hi := k } q :=
+  ⟨h1, h2, (fun kl h => by cases h), (fun h => by cases h), (fun h => by cases h), (fun t h => by cases h)⟩
 
 lemma clamp_ge (f : Fmt) (k : Int) : f.emin ≤ clamp f k := le_max_right _ _
 lemma pow_clamp (f : Fmt) (k : Int) : (2 : ℚ) ^ k ≤ 2 ^ clamp f k := zpow_le_zpow_right₀ (by norm_num) (le_max_left _ _)
@@ -32,15 +43,14 @@ lemma abs_rn_le_pow {q : QFmt} {r : ℚ → ℚ} (hr : IsRN q r) {k : ℤ} (hk :
 
 lemma argB_rel {st : List B} {envQ : List ℚ} (hinv : BInv f st envQ) {args : List Nat} {i : Nat} {b : B}
     (h : argB st args i = some b) :
-    ∃ q, (args[i]? >>= fun j => envQ[j]?) = some q ∧ |q| ≤ 2 ^ b.hi ∧ f.emin ≤ b.hi ∧ (∀ kl, b.lo = some kl → (2 : ℚ) ^ kl ≤ |q|) ∧
-      (b.fin = true → |q| ≤ Lmax f) := by
+    ∃ q, (args[i]? >>= fun j => envQ[j]?) = some q ∧ BRel f b q := by
   unfold argB at h
   cases hj : args[i]? with
   | none => simp [hj] at h
   | some j =>
     simp only [hj] at h
-    obtain ⟨q, h1, h2, h3, h4, h5⟩ := hinv.rel j b h
-    exact ⟨q, by simp [h1], h2, h3, h4, h5⟩
+    obtain ⟨q, h1, h2⟩ := hinv.rel j b h
+    exact ⟨q, by simp [h1], h2⟩
 
 lemma q2b_le (b : Bool) : |q2b b| ≤ (2 : ℚ) ^ clamp f 0 := by
   have : (1 : ℚ) ≤ 2 ^ clamp f 0 := by
@@ -49,13 +59,54 @@ lemma q2b_le (b : Bool) : |q2b b| ≤ (2 : ℚ) ^ clamp f 0 := by
   · simp only [q2b, Bool.false_eq_true, if_false, abs_zero]; positivity
   · simp only [q2b, if_true, abs_one]; exact this
 
+lemma ltTv_sound {a b : B} {qa qb : ℚ} (ha : BRel f a qa) (hb : BRel f b qb) :
+    ∀ t, ltTv a b = some t → q2b (decide (qa < qb)) = q2b t := by
+  intro t ht
+  unfold ltTv at ht
+  by_cases h1 : ltFalse a b = true
+  · simp only [h1, if_true, Option.some.injEq] at ht
+    subst ht
+    unfold ltFalse at h1
+    rw [Bool.and_eq_true] at h1
+    obtain ⟨hn, hl⟩ := h1
+    cases hlo : a.lo with
+    | none => simp [hlo] at hl
+    | some kl =>
+      simp only [hlo, decide_eq_true_eq] at hl
+      have h0 := ha.nn hn
+      have h2 := ha.lo kl hlo
+      rw [abs_of_nonneg h0] at h2
+      have h3 : (2 : ℚ) ^ b.hi ≤ 2 ^ kl := zpow_le_zpow_right₀ (by norm_num) hl
+      have h4 := le_trans (le_abs_self qb) hb.hi
+      have : ¬ qa < qb := by push Not; linarith
+      simp [this]
+  · simp only [h1, Bool.false_eq_true, if_false] at ht
+    by_cases h2 : ltTrue a b = true
+    · simp only [h2, if_true, Option.some.injEq] at ht
+      subst ht
+      unfold ltTrue at h2
+      rw [Bool.and_eq_true] at h2
+      obtain ⟨hn, hl⟩ := h2
+      cases hlo : b.lo with
+      | none => simp [hlo] at hl
+      | some kb =>
+        simp only [hlo, decide_eq_true_eq] at hl
+        have h0 := hb.nn hn
+        have h3 := hb.lo kb hlo
+        rw [abs_of_nonneg h0] at h3
+        have h4 : (2 : ℚ) ^ a.hi < 2 ^ kb := zpow_lt_zpow_right₀ (by norm_num) hl
+        have h5 := le_trans (le_abs_self qa) ha.hi
+        have : qa < qb := by linarith
+        simp [this]
+    · simp [h2] at ht
+
 set_option maxHeartbeats 1000000 in
 /-- one node of the analyser is sound -/
-theorem stepB_sound (hf : WF f) {r : ℚ → ℚ} (hr : IsRN (qf f hf.hp) r) (E : List Int) (insQ : List ℚ)
+theorem stepB_sound (hf : WF f) {r : ℚ → ℚ} (hr : IsRN (qf f hf.hp) r) (E : List Int) (EL : List (Option Int)) (insQ : List ℚ)
     (hE : ∀ (i : Nat) (k : Int), E[i]? = some k → ∃ q, insQ[i]? = some q ∧ |q| ≤ 2 ^ k)
-    (st : List B) (envQ : List ℚ) (hinv : BInv f st envQ) (n : Node) (b : B) (hb : stepB f E st n = some b) :
-    ∃ q, evalNodeQ f r insQ envQ n = some q ∧ |q| ≤ 2 ^ b.hi ∧ f.emin ≤ b.hi ∧ (∀ kl, b.lo = some kl → (2 : ℚ) ^ kl ≤ |q|) ∧
-      (b.fin = true → |q| ≤ Lmax f) := by
+    (hEL : ∀ (i : Nat) (k : Int), EL[i]? = some (some k) → ∀ q, insQ[i]? = some q → (2 : ℚ) ^ k ≤ |q|)
+    (st : List B) (envQ : List ℚ) (hinv : BInv f st envQ) (n : Node) (b : B) (hb : stepB f E EL st n = some b) :
+    ∃ q, evalNodeQ f r insQ envQ n = some q ∧ BRel f b q := by
   have hemq : (qf f hf.hp).emin = f.emin := rfl
   unfold stepB at hb
   unfold evalNodeQ
@@ -67,7 +118,13 @@ theorem stepB_sound (hf : WF f) {r : ℚ → ℚ} (hr : IsRN (qf f hf.hp) r) (E 
       simp only [hk, Option.map_some, Option.some.injEq] at hb
       subst hb
       obtain ⟨q, h1, h2⟩ := hE n.imm k hk
-      exact ⟨q, h1, le_trans h2 (pow_clamp f k), clamp_ge f k, (fun kl h => by cases h), (fun h => by cases h)⟩
+      refine ⟨q, h1, ⟨le_trans h2 (pow_clamp f k), clamp_ge f k, ?_, (fun h => by cases h), (fun h => by cases h), (fun t h => by cases h)⟩⟩
+      intro kl hkl
+      have : EL[n.imm]? = some (some kl) := by
+        cases h : EL[n.imm]? with
+        | none => simp [h] at hkl
+        | some o => simp [h] at hkl; subst hkl; rfl
+      exact hEL n.imm kl this q h1
   case const =>
     cases hd : decode f n.imm with
     | nan => simp [hd] at hb
@@ -75,24 +132,40 @@ theorem stepB_sound (hf : WF f) {r : ℚ → ℚ} (hr : IsRN (qf f hf.hp) r) (E 
     | fin s m e =>
       simp only [hd] at hb
       refine ⟨valQ s m e, by rw [toRat_fin], ?_⟩
+      have h2e : (0 : ℚ) < 2 ^ e := by positivity
       have habs : |valQ s m e| = (m : ℚ) * 2 ^ e := by
-        have h2e : (0 : ℚ) < 2 ^ e := by positivity
         cases s <;> simp [valQ, abs_mul, abs_of_pos h2e]
       have hfinL : |valQ s m e| ≤ Lmax f := by rw [habs]; exact decode_le_Lmax f hf n.imm s m e hd
+      have hnn : (!s) = true → 0 ≤ valQ s m e := by
+        intro hs
+        have : s = false := by cases s <;> simp_all
+        subst this
+        simp only [valQ, Bool.false_eq_true, if_false]
+        positivity
       by_cases hm : m = 0
       · simp only [hm, if_true, Option.some.injEq] at hb
         subst hb
-        refine ⟨by rw [habs, hm]; simp; positivity, le_refl _, (fun kl h => by cases h), (fun _ => hfinL)⟩
+        refine ⟨by rw [habs, hm]; simp; positivity, le_refl _, (fun kl h => by cases h), (fun _ => hfinL), ?_, (fun t h => by cases h)⟩
+        intro _
+        have : valQ s m e = 0 := by rw [hm]; cases s <;> simp [valQ]
+        rw [this]
       · simp only [hm, if_false, Option.some.injEq] at hb
         subst hb
         obtain ⟨h1, h2, h3⟩ := bitLen_bounds (Nat.pos_of_ne_zero hm)
-        have h2e : (0 : ℚ) < 2 ^ e := by positivity
-        refine ⟨?_, clamp_ge f _, ?_, fun _ => hfinL⟩
+        refine ⟨?_, clamp_ge f _, ?_, (fun _ => hfinL), hnn, (fun t h => by cases h)⟩
         · rw [habs]
           refine le_trans ?_ (pow_clamp f _)
-          rw [zpow_add₀ (by norm_num : (2 : ℚ) ≠ 0), zpow_natCast, mul_comm ((2 : ℚ) ^ e)]
-          apply mul_le_mul_of_nonneg_right _ h2e.le
-          exact_mod_cast h2.le
+          unfold constHi
+          split
+          · rename_i hpow
+            rw [show e + (bitLen m : ℤ) - 1 = e + ((bitLen m - 1 : ℕ) : ℤ) by omega,
+              zpow_add₀ (by norm_num : (2 : ℚ) ≠ 0), zpow_natCast, mul_comm ((2 : ℚ) ^ e)]
+            apply mul_le_mul_of_nonneg_right _ h2e.le
+            have : (m : ℚ) = 2 ^ (bitLen m - 1) := by exact_mod_cast hpow
+            rw [← this]
+          · rw [zpow_add₀ (by norm_num : (2 : ℚ) ≠ 0), zpow_natCast, mul_comm ((2 : ℚ) ^ e)]
+            apply mul_le_mul_of_nonneg_right _ h2e.le
+            exact_mod_cast h2.le
         · intro kl hkl
           simp only [Option.some.injEq] at hkl
           subst hkl
@@ -103,7 +176,7 @@ theorem stepB_sound (hf : WF f) {r : ℚ → ℚ} (hr : IsRN (qf f hf.hp) r) (E 
   case bconst =>
     split at hb
     · cases hb
-      exact ⟨_, rfl, q2b_le _, clamp_ge f 0, (fun kl h => by cases h), (fun h => by cases h)⟩
+      exact ⟨_, rfl, BRel.plain (q2b_le _) (clamp_ge f 0)⟩
     · cases hb
   case add =>
     cases ha : argB st n.args 0 with
@@ -114,10 +187,11 @@ theorem stepB_sound (hf : WF f) {r : ℚ → ℚ} (hr : IsRN (qf f hf.hp) r) (E 
       | some b' =>
         simp only [ha, hbb, Option.some.injEq] at hb
         subst hb
-        obtain ⟨qa, e1, h1, g1, -, fqa⟩ := argB_rel hinv ha
-        obtain ⟨qb, e2, h2, g2, -, fqb⟩ := argB_rel hinv hbb
+        obtain ⟨qa, e1, ra⟩ := argB_rel hinv ha
+        obtain ⟨qb, e2, rb⟩ := argB_rel hinv hbb
+        have h1 := ra.hi; have h2 := rb.hi
         simp only [e1, e2, Option.bind_eq_bind, Option.bind_some]
-        refine ⟨_, rfl, ?_, clamp_ge f _, (fun kl h => by cases h), (fun h => by cases h)⟩
+        refine ⟨_, rfl, BRel.plain ?_ (clamp_ge f _)⟩
         apply abs_rn_le_pow hr (clamp_ge f _)
         refine le_trans ?_ (pow_clamp f _)
         have hm1 : (2 : ℚ) ^ a.hi ≤ 2 ^ max a.hi b'.hi := zpow_le_zpow_right₀ (by norm_num) (le_max_left _ _)
@@ -134,10 +208,11 @@ theorem stepB_sound (hf : WF f) {r : ℚ → ℚ} (hr : IsRN (qf f hf.hp) r) (E 
       | some b' =>
         simp only [ha, hbb, Option.some.injEq] at hb
         subst hb
-        obtain ⟨qa, e1, h1, g1, -, fqa⟩ := argB_rel hinv ha
-        obtain ⟨qb, e2, h2, g2, -, fqb⟩ := argB_rel hinv hbb
+        obtain ⟨qa, e1, ra⟩ := argB_rel hinv ha
+        obtain ⟨qb, e2, rb⟩ := argB_rel hinv hbb
+        have h1 := ra.hi; have h2 := rb.hi
         simp only [e1, e2, Option.bind_eq_bind, Option.bind_some]
-        refine ⟨_, rfl, ?_, clamp_ge f _, (fun kl h => by cases h), (fun h => by cases h)⟩
+        refine ⟨_, rfl, BRel.plain ?_ (clamp_ge f _)⟩
         apply abs_rn_le_pow hr (clamp_ge f _)
         refine le_trans ?_ (pow_clamp f _)
         have hm1 : (2 : ℚ) ^ a.hi ≤ 2 ^ max a.hi b'.hi := zpow_le_zpow_right₀ (by norm_num) (le_max_left _ _)
@@ -154,10 +229,11 @@ theorem stepB_sound (hf : WF f) {r : ℚ → ℚ} (hr : IsRN (qf f hf.hp) r) (E 
       | some b' =>
         simp only [ha, hbb, Option.some.injEq] at hb
         subst hb
-        obtain ⟨qa, e1, h1, g1, -, fqa⟩ := argB_rel hinv ha
-        obtain ⟨qb, e2, h2, g2, -, fqb⟩ := argB_rel hinv hbb
+        obtain ⟨qa, e1, ra⟩ := argB_rel hinv ha
+        obtain ⟨qb, e2, rb⟩ := argB_rel hinv hbb
+        have h1 := ra.hi; have h2 := rb.hi
         simp only [e1, e2, Option.bind_eq_bind, Option.bind_some]
-        refine ⟨_, rfl, ?_, clamp_ge f _, (fun kl h => by cases h), (fun h => by cases h)⟩
+        refine ⟨_, rfl, BRel.plain ?_ (clamp_ge f _)⟩
         apply abs_rn_le_pow hr (clamp_ge f _)
         refine le_trans ?_ (pow_clamp f _)
         rw [abs_mul, zpow_add₀ (by norm_num : (2 : ℚ) ≠ 0)]
@@ -175,14 +251,15 @@ theorem stepB_sound (hf : WF f) {r : ℚ → ℚ} (hr : IsRN (qf f hf.hp) r) (E 
         | some kl =>
           simp only [hlo, Option.map_some, Option.some.injEq] at hb
           subst hb
-          obtain ⟨qa, e1, h1, g1, -, fqa⟩ := argB_rel hinv ha
-          obtain ⟨qb, e2, h2, g2, l2, fqb⟩ := argB_rel hinv hbb
-          have hl := l2 kl hlo
+          obtain ⟨qa, e1, ra⟩ := argB_rel hinv ha
+          obtain ⟨qb, e2, rb⟩ := argB_rel hinv hbb
+          have h1 := ra.hi
+          have hl := rb.lo kl hlo
           have hqb : qb ≠ 0 := by
             intro h0; rw [h0] at hl; simp at hl
             exact absurd hl (not_le.mpr (by positivity))
           simp only [e1, e2, Option.bind_eq_bind, Option.bind_some, hqb, if_false]
-          refine ⟨_, rfl, ?_, clamp_ge f _, (fun kl h => by cases h), (fun h => by cases h)⟩
+          refine ⟨_, rfl, BRel.plain ?_ (clamp_ge f _)⟩
           apply abs_rn_le_pow hr (clamp_ge f _)
           refine le_trans ?_ (pow_clamp f _)
           rw [abs_div, zpow_sub₀ (by norm_num : (2 : ℚ) ≠ 0)]
@@ -193,19 +270,21 @@ theorem stepB_sound (hf : WF f) {r : ℚ → ℚ} (hr : IsRN (qf f hf.hp) r) (E 
     | some a =>
       simp only [ha, Option.map_some, Option.some.injEq] at hb
       subst hb
-      obtain ⟨qa, e1, h1, g1, l1, fqa⟩ := argB_rel hinv ha
+      obtain ⟨qa, e1, ra⟩ := argB_rel hinv ha
       simp only [e1, Option.bind_eq_bind, Option.bind_some]
-      exact ⟨_, rfl, by rwa [abs_neg], g1, (fun kl h => by rw [abs_neg]; exact l1 kl h), (fun h => by rw [abs_neg]; exact fqa h)⟩
+      exact ⟨_, rfl, ⟨by rw [abs_neg]; exact ra.hi, ra.ge, (fun kl h => by rw [abs_neg]; exact ra.lo kl h),
+        (fun h => by rw [abs_neg]; exact ra.fin h), (fun h => by cases h), (fun t h => by cases h)⟩⟩
   case abs =>
     cases ha : argB st n.args 0 with
     | none => simp [ha] at hb
     | some a =>
       simp only [ha, Option.map_some, Option.some.injEq] at hb
       subst hb
-      obtain ⟨qa, e1, h1, g1, l1, fqa⟩ := argB_rel hinv ha
+      obtain ⟨qa, e1, ra⟩ := argB_rel hinv ha
       simp only [e1, Option.bind_eq_bind, Option.bind_some]
       have e : |if qa < 0 then -qa else qa| = |qa| := by split <;> simp
-      exact ⟨_, rfl, by rwa [e], g1, (fun kl h => by rw [e]; exact l1 kl h), (fun h => by rw [e]; exact fqa h)⟩
+      exact ⟨_, rfl, ⟨by rw [e]; exact ra.hi, ra.ge, (fun kl h => by rw [e]; exact ra.lo kl h),
+        (fun h => by rw [e]; exact ra.fin h), (fun _ => by split <;> linarith), (fun t h => by cases h)⟩⟩
   case pymax =>
     cases ha : argB st n.args 0 with
     | none => simp [ha] at hb
@@ -215,18 +294,19 @@ theorem stepB_sound (hf : WF f) {r : ℚ → ℚ} (hr : IsRN (qf f hf.hp) r) (E 
       | some b' =>
         simp only [ha, hbb, Option.some.injEq] at hb
         subst hb
-        obtain ⟨qa, e1, h1, g1, -, fqa⟩ := argB_rel hinv ha
-        obtain ⟨qb, e2, h2, g2, -, fqb⟩ := argB_rel hinv hbb
+        obtain ⟨qa, e1, ra⟩ := argB_rel hinv ha
+        obtain ⟨qb, e2, rb⟩ := argB_rel hinv hbb
+        have h1 := ra.hi; have h2 := rb.hi
         simp only [e1, e2, Option.bind_eq_bind, Option.bind_some]
         have hm1 : (2 : ℚ) ^ a.hi ≤ 2 ^ max a.hi b'.hi := zpow_le_zpow_right₀ (by norm_num) (le_max_left _ _)
         have hm2 : (2 : ℚ) ^ b'.hi ≤ 2 ^ max a.hi b'.hi := zpow_le_zpow_right₀ (by norm_num) (le_max_right _ _)
-        refine ⟨_, rfl, ?_, le_trans g1 (le_max_left _ _), (fun kl h => by cases h), ?_⟩
+        refine ⟨_, rfl, ⟨?_, le_trans ra.ge (le_max_left _ _), (fun kl h => by cases h), ?_, (fun h => by cases h), (fun t h => by cases h)⟩⟩
         · split <;> linarith
         · intro hfin
           have hfin' : a.fin = true ∧ b'.fin = true := by simpa [Bool.and_eq_true] using hfin
           split
-          · first | exact fqb hfin'.2 | exact fqa hfin'.1
-          · first | exact fqa hfin'.1 | exact fqb hfin'.2
+          · first | exact rb.fin hfin'.2 | exact ra.fin hfin'.1
+          · first | exact ra.fin hfin'.1 | exact rb.fin hfin'.2
   case pymin =>
     cases ha : argB st n.args 0 with
     | none => simp [ha] at hb
@@ -236,18 +316,45 @@ theorem stepB_sound (hf : WF f) {r : ℚ → ℚ} (hr : IsRN (qf f hf.hp) r) (E 
       | some b' =>
         simp only [ha, hbb, Option.some.injEq] at hb
         subst hb
-        obtain ⟨qa, e1, h1, g1, -, fqa⟩ := argB_rel hinv ha
-        obtain ⟨qb, e2, h2, g2, -, fqb⟩ := argB_rel hinv hbb
+        obtain ⟨qa, e1, ra⟩ := argB_rel hinv ha
+        obtain ⟨qb, e2, rb⟩ := argB_rel hinv hbb
+        have h1 := ra.hi; have h2 := rb.hi
         simp only [e1, e2, Option.bind_eq_bind, Option.bind_some]
         have hm1 : (2 : ℚ) ^ a.hi ≤ 2 ^ max a.hi b'.hi := zpow_le_zpow_right₀ (by norm_num) (le_max_left _ _)
         have hm2 : (2 : ℚ) ^ b'.hi ≤ 2 ^ max a.hi b'.hi := zpow_le_zpow_right₀ (by norm_num) (le_max_right _ _)
-        refine ⟨_, rfl, ?_, le_trans g1 (le_max_left _ _), (fun kl h => by cases h), ?_⟩
+        refine ⟨_, rfl, ⟨?_, le_trans ra.ge (le_max_left _ _), (fun kl h => by cases h), ?_, (fun h => by cases h), (fun t h => by cases h)⟩⟩
         · split <;> linarith
         · intro hfin
           have hfin' : a.fin = true ∧ b'.fin = true := by simpa [Bool.and_eq_true] using hfin
           split
-          · first | exact fqb hfin'.2 | exact fqa hfin'.1
-          · first | exact fqa hfin'.1 | exact fqb hfin'.2
+          · first | exact rb.fin hfin'.2 | exact ra.fin hfin'.1
+          · first | exact ra.fin hfin'.1 | exact rb.fin hfin'.2
+  case lt =>
+    cases ha : argB st n.args 0 with
+    | none => simp [ha] at hb
+    | some a =>
+      cases hbb : argB st n.args 1 with
+      | none => simp [ha, hbb] at hb
+      | some b' =>
+        simp only [ha, hbb, Option.some.injEq] at hb
+        subst hb
+        obtain ⟨qa, e1, ra⟩ := argB_rel hinv ha
+        obtain ⟨qb, e2, rb⟩ := argB_rel hinv hbb
+        simp only [e1, e2, Option.bind_eq_bind, Option.bind_some]
+        exact ⟨_, rfl, ⟨q2b_le _, clamp_ge f 0, (fun kl h => by cases h), (fun h => by cases h), (fun h => by cases h), ltTv_sound ra rb⟩⟩
+  case gt =>
+    cases ha : argB st n.args 0 with
+    | none => simp [ha] at hb
+    | some a =>
+      cases hbb : argB st n.args 1 with
+      | none => simp [ha, hbb] at hb
+      | some b' =>
+        simp only [ha, hbb, Option.some.injEq] at hb
+        subst hb
+        obtain ⟨qa, e1, ra⟩ := argB_rel hinv ha
+        obtain ⟨qb, e2, rb⟩ := argB_rel hinv hbb
+        simp only [e1, e2, Option.bind_eq_bind, Option.bind_some]
+        exact ⟨_, rfl, ⟨q2b_le _, clamp_ge f 0, (fun kl h => by cases h), (fun h => by cases h), (fun h => by cases h), ltTv_sound rb ra⟩⟩
   case select =>
     cases hc : argB st n.args 0 with
     | none => simp [hc] at hb
@@ -258,39 +365,58 @@ theorem stepB_sound (hf : WF f) {r : ℚ → ℚ} (hr : IsRN (qf f hf.hp) r) (E 
         cases hbb : argB st n.args 2 with
         | none => simp [hc, ha, hbb] at hb
         | some b' =>
-          simp only [hc, ha, hbb, Option.some.injEq] at hb
-          subst hb
-          obtain ⟨qc, e0, -, -, -, fqc⟩ := argB_rel hinv hc
-          obtain ⟨qa, e1, h1, g1, -, fqa⟩ := argB_rel hinv ha
-          obtain ⟨qb, e2, h2, g2, -, fqb⟩ := argB_rel hinv hbb
+          simp only [hc, ha, hbb] at hb
+          obtain ⟨qc, e0, rc⟩ := argB_rel hinv hc
+          obtain ⟨qa, e1, ra⟩ := argB_rel hinv ha
+          obtain ⟨qb, e2, rb⟩ := argB_rel hinv hbb
+          have h1 := ra.hi; have h2 := rb.hi
           simp only [e0, e1, e2, Option.bind_eq_bind, Option.bind_some]
-          have hm1 : (2 : ℚ) ^ a.hi ≤ 2 ^ max a.hi b'.hi := zpow_le_zpow_right₀ (by norm_num) (le_max_left _ _)
-          have hm2 : (2 : ℚ) ^ b'.hi ≤ 2 ^ max a.hi b'.hi := zpow_le_zpow_right₀ (by norm_num) (le_max_right _ _)
-          refine ⟨_, rfl, ?_, le_trans g1 (le_max_left _ _), (fun kl h => by cases h), ?_⟩
-          · split <;> linarith
-          · intro hfin
-            have hfin' : a.fin = true ∧ b'.fin = true := by simpa [Bool.and_eq_true] using hfin
-            split
-            · exact fqa hfin'.1
-            · exact fqb hfin'.2
+          cases htv : c.tv with
+          | none =>
+            simp only [htv, Option.some.injEq] at hb
+            subst hb
+            have hm1 : (2 : ℚ) ^ a.hi ≤ 2 ^ max a.hi b'.hi := zpow_le_zpow_right₀ (by norm_num) (le_max_left _ _)
+            have hm2 : (2 : ℚ) ^ b'.hi ≤ 2 ^ max a.hi b'.hi := zpow_le_zpow_right₀ (by norm_num) (le_max_right _ _)
+            refine ⟨_, rfl, ⟨?_, le_trans ra.ge (le_max_left _ _), (fun kl h => by cases h), ?_, (fun h => by cases h), (fun t h => by cases h)⟩⟩
+            · split <;> linarith
+            · intro hfin
+              have hfin' : a.fin = true ∧ b'.fin = true := by simpa [Bool.and_eq_true] using hfin
+              split
+              · exact ra.fin hfin'.1
+              · exact rb.fin hfin'.2
+          | some t =>
+            have hqc := rc.tv t htv
+            cases t with
+            | true =>
+              simp only [htv, Option.some.injEq] at hb
+              subst hb
+              have : qc ≠ 0 := by rw [hqc]; simp [q2b]
+              simp only [this, ne_eq, not_false_eq_true, if_true]
+              exact ⟨_, rfl, ⟨ra.hi, ra.ge, ra.lo, ra.fin, ra.nn, (fun t h => by cases h)⟩⟩
+            | false =>
+              simp only [htv, Option.some.injEq] at hb
+              subst hb
+              have : qc = 0 := by rw [hqc]; simp [q2b]
+              simp only [this, ne_eq, not_true_eq_false, if_false]
+              exact ⟨_, rfl, ⟨rb.hi, rb.ge, rb.lo, rb.fin, rb.nn, (fun t h => by cases h)⟩⟩
   case not =>
     cases ha : argB st n.args 0 with
     | none => simp [ha] at hb
     | some a =>
       simp only [ha, Option.map_some, Option.some.injEq] at hb
       subst hb
-      obtain ⟨qa, e1, -, -, -, fqa⟩ := argB_rel hinv ha
+      obtain ⟨qa, e1, -⟩ := argB_rel hinv ha
       simp only [e1, Option.bind_eq_bind, Option.bind_some]
-      exact ⟨_, rfl, q2b_le _, clamp_ge f 0, (fun kl h => by cases h), (fun h => by cases h)⟩
+      exact ⟨_, rfl, BRel.plain (q2b_le _) (clamp_ge f 0)⟩
   case isfinite =>
     cases ha : argB st n.args 0 with
     | none => simp [ha] at hb
     | some a =>
       simp only [ha, Option.map_some, Option.some.injEq] at hb
       subst hb
-      obtain ⟨qa, e1, -, -, -, fqa⟩ := argB_rel hinv ha
+      obtain ⟨qa, e1, -⟩ := argB_rel hinv ha
       simp only [e1, Option.bind_eq_bind, Option.bind_some]
-      exact ⟨_, rfl, q2b_le _, clamp_ge f 0, (fun kl h => by cases h), (fun h => by cases h)⟩
+      exact ⟨_, rfl, BRel.plain (q2b_le _) (clamp_ge f 0)⟩
   all_goals first
     | (cases ha : argB st n.args 0 with
         | none => simp [ha] at hb
@@ -300,10 +426,10 @@ theorem stepB_sound (hf : WF f) {r : ℚ → ℚ} (hr : IsRN (qf f hf.hp) r) (E 
           | some b' =>
             simp only [ha, hbb, Option.some.injEq] at hb
             subst hb
-            obtain ⟨qa, e1, -, -, -, fqa⟩ := argB_rel hinv ha
-            obtain ⟨qb, e2, -, -, -, fqb⟩ := argB_rel hinv hbb
+            obtain ⟨qa, e1, -⟩ := argB_rel hinv ha
+            obtain ⟨qb, e2, -⟩ := argB_rel hinv hbb
             simp only [e1, e2, Option.bind_eq_bind, Option.bind_some]
-            exact ⟨_, rfl, q2b_le _, clamp_ge f 0, (fun kl h => by cases h), (fun h => by cases h)⟩)
+            exact ⟨_, rfl, BRel.plain (q2b_le _) (clamp_ge f 0)⟩)
     | (cases hb)
 
 end FAVerif.Ovf
@@ -313,8 +439,7 @@ open FAVerif.IR FAVerif.FP FAVerif.FPQ FAVerif.SoftRound FAVerif.Refine
 
 variable {f : Fmt}
 
-lemma binv_push {st : List B} {envQ : List ℚ} (hinv : BInv f st envQ) {b : B} {q : ℚ}
-    (h : |q| ≤ 2 ^ b.hi ∧ f.emin ≤ b.hi ∧ (∀ kl, b.lo = some kl → (2 : ℚ) ^ kl ≤ |q|) ∧ (b.fin = true → |q| ≤ Lmax f)) :
+lemma binv_push {st : List B} {envQ : List ℚ} (hinv : BInv f st envQ) {b : B} {q : ℚ} (h : BRel f b q) :
     BInv f (st ++ [b]) (envQ ++ [q]) := by
   refine ⟨by simp [hinv.len], ?_⟩
   intro i b' hb'
@@ -336,42 +461,43 @@ lemma binv_push {st : List B} {envQ : List ℚ} (hinv : BInv f st envQ) {b : B} 
     exact ⟨q, by rw [hiq]; simp, h⟩
 
 /-- the analyser is sound on node lists: the ℚ-run is defined and within the computed bounds -/
-theorem boundsOf_sound (hf : WF f) {r : ℚ → ℚ} (hr : IsRN (qf f hf.hp) r) (E : List Int) (insQ : List ℚ)
-    (hE : ∀ (i : Nat) (k : Int), E[i]? = some k → ∃ q, insQ[i]? = some q ∧ |q| ≤ 2 ^ k) :
-    ∀ (nodes : List Node) (st stF : List B) (envQ : List ℚ), BInv f st envQ → boundsOf f E nodes st = some stF →
+theorem boundsOf_sound (hf : WF f) {r : ℚ → ℚ} (hr : IsRN (qf f hf.hp) r) (E : List Int) (EL : List (Option Int)) (insQ : List ℚ)
+    (hE : ∀ (i : Nat) (k : Int), E[i]? = some k → ∃ q, insQ[i]? = some q ∧ |q| ≤ 2 ^ k)
+    (hEL : ∀ (i : Nat) (k : Int), EL[i]? = some (some k) → ∀ q, insQ[i]? = some q → (2 : ℚ) ^ k ≤ |q|) :
+    ∀ (nodes : List Node) (st stF : List B) (envQ : List ℚ), BInv f st envQ → boundsOfL f E EL nodes st = some stF →
       ∃ envQF, evalNodesQ f r insQ nodes envQ = some envQF ∧ BInv f stF envQF := by
   intro nodes
   induction nodes with
   | nil =>
     intro st stF envQ hinv h
-    simp only [boundsOf, Option.some.injEq] at h
+    simp only [boundsOfL, Option.some.injEq] at h
     subst h
     exact ⟨envQ, rfl, hinv⟩
   | cons n ns ih =>
     intro st stF envQ hinv h
-    simp only [boundsOf, Option.bind_eq_bind] at h
-    cases hb : stepB f E st n with
+    simp only [boundsOfL, Option.bind_eq_bind] at h
+    cases hb : stepB f E EL st n with
     | none => simp [hb] at h
     | some b =>
       simp only [hb, Option.bind_some] at h
-      obtain ⟨q, hq, hr1⟩ := stepB_sound hf hr E insQ hE st envQ hinv n b hb
+      obtain ⟨q, hq, hr1⟩ := stepB_sound hf hr E EL insQ hE hEL st envQ hinv n b hb
       obtain ⟨envQF, h1, h2⟩ := ih _ _ _ (binv_push hinv hr1) h
       exact ⟨envQF, by simp only [evalNodesQ, hq, Option.bind_eq_bind, Option.bind_some]; exact h1, h2⟩
 
-lemma stepB_no_sqrt {E : List Int} {st : List B} {n : Node} {b : B} (h : stepB f E st n = some b) : n.op ≠ .sqrt := by
+lemma stepB_no_sqrt {E : List Int} {EL : List (Option Int)} {st : List B} {n : Node} {b : B} (h : stepB f E EL st n = some b) : n.op ≠ .sqrt := by
   intro hop; unfold stepB at h; simp [hop] at h
 
 /-- on programs the analyser accepts (no sqrt), the evaluator with a square-root oracle is the plain one -/
-lemma evalNodesQS_eq_of_bounds (r S : ℚ → ℚ) (E : List Int) (insQ : List ℚ) :
-    ∀ (nodes : List Node) (st stF : List B) (envQ : List ℚ), boundsOf f E nodes st = some stF →
+lemma evalNodesQS_eq_of_bounds (r S : ℚ → ℚ) (E : List Int) (EL : List (Option Int)) (insQ : List ℚ) :
+    ∀ (nodes : List Node) (st stF : List B) (envQ : List ℚ), boundsOfL f E EL nodes st = some stF →
       (evalNodesQ f r insQ nodes envQ).isSome → evalNodesQS f r S insQ nodes envQ = evalNodesQ f r insQ nodes envQ := by
   intro nodes
   induction nodes with
   | nil => intro st stF envQ _ _; rfl
   | cons n ns ih =>
     intro st stF envQ h hsome
-    simp only [boundsOf, Option.bind_eq_bind] at h
-    cases hb : stepB f E st n with
+    simp only [boundsOfL, Option.bind_eq_bind] at h
+    cases hb : stepB f E EL st n with
     | none => simp [hb] at h
     | some b =>
       simp only [hb, Option.bind_some] at h
@@ -397,30 +523,32 @@ lemma pow_kmax_le_Lmax (f : Fmt) (hf : WF f) : (2 : ℚ) ^ kmax f ≤ Lmax f := 
 `E` (a decidable check), then for all finite input patterns whose values are within 2^E the bit-exact run exists, every
 float node is finite, the ℚ-run (round-to-nearest-even, unbounded exponent range) exists, and the two are related node by
 node. -/
-theorem overflow_free_refines (hf : WF f) (hL : 4 ≤ Lmax f) (nodes : List Node) (kinds : List Bool) (hk : kindsOfS nodes [] = some kinds)
-    (E : List Int) (hchk : overflowFree f E nodes = true)
+theorem overflow_free_refinesL (hf : WF f) (hL : 4 ≤ Lmax f) (nodes : List Node) (kinds : List Bool) (hk : kindsOfS nodes [] = some kinds)
+    (E : List Int) (EL : List (Option Int)) (hchk : overflowFreeL f E EL nodes = true)
     (lib : Libm) (ins : List Nat) (insQ : List ℚ) (hins : InsRel f ins insQ)
-    (hE : ∀ (i : Nat) (k : Int), E[i]? = some k → ∃ q, insQ[i]? = some q ∧ |q| ≤ 2 ^ k) :
+    (hE : ∀ (i : Nat) (k : Int), E[i]? = some k → ∃ q, insQ[i]? = some q ∧ |q| ≤ 2 ^ k)
+    (hEL : ∀ (i : Nat) (k : Int), EL[i]? = some (some k) → ∀ q, insQ[i]? = some q → (2 : ℚ) ^ k ≤ |q|) :
     ∃ (env : Array Nat) (envQ : List ℚ), evalNodes f lib ins nodes #[] = some env ∧
       evalNodesQ f (rne (qf f hf.hp)) insQ nodes [] = some envQ ∧ Inv f kinds env envQ ∧
       (∀ (i : Nat) (v : Nat), env[i]? = some v → kinds[i]? = some false → isFiniteBits f v = true) := by
-  unfold overflowFree at hchk
-  cases hb : boundsOf f E nodes [] with
+  unfold overflowFreeL at hchk
+  cases hb : boundsOfL f E EL nodes [] with
   | none => simp [hb] at hchk
   | some st =>
     simp only [hb, List.all_eq_true] at hchk
     have hb0 : BInv f [] [] := ⟨rfl, fun i b h => by simp at h⟩
-    obtain ⟨envQ, hq, hbinv⟩ := boundsOf_sound hf (isRN_rne (qf f hf.hp)) E insQ hE nodes [] st [] hb0 hb
+    obtain ⟨envQ, hq, hbinv⟩ := boundsOf_sound hf (isRN_rne (qf f hf.hp)) E EL insQ hE hEL nodes [] st [] hb0 hb
     have hS0 : ∀ S0 : ℚ → ℚ, evalNodesQS f (rne (qf f hf.hp)) (Ssoft f S0) insQ nodes [] = some envQ := by
       intro S0
-      rw [evalNodesQS_eq_of_bounds _ _ E insQ nodes [] st [] hb (by rw [hq]; rfl), hq]
+      rw [evalNodesQS_eq_of_bounds _ _ E EL insQ nodes [] st [] hb (by rw [hq]; rfl), hq]
     have hbd : ∀ (i : Nat) (q : ℚ), envQ[i]? = some q → kinds[i]? = some false → |q| ≤ Lmax f := by
       intro i q hi _
       have hlt : i < st.length := by
         rw [hbinv.len]
         by_contra hc; push Not at hc
         rw [List.getElem?_eq_none hc] at hi; cases hi
-      obtain ⟨q', e1, h1, -, -, hfin1⟩ := hbinv.rel i st[i] (List.getElem?_eq_getElem hlt)
+      obtain ⟨q', e1, rq⟩ := hbinv.rel i st[i] (List.getElem?_eq_getElem hlt)
+      have h1 := rq.hi; have hfin1 := rq.fin
       rw [hi] at e1; cases e1
       have h2 := hchk st[i] (List.getElem_mem hlt)
       rcases Bool.or_eq_true _ _ |>.mp h2 with hf1 | hf2
@@ -432,6 +560,18 @@ theorem overflow_free_refines (hf : WF f) (hL : 4 ≤ Lmax f) (nodes : List Node
     have hinv0 : Inv f [] #[] [] := ⟨rfl, rfl, fun i k hk => by simp at hk⟩
     obtain ⟨env, he, hinv⟩ := fwdS hf hL (fun t => t) lib ins insQ hins nodes [] kinds #[] [] envQ hinv0 hk (hS0 _) hbd
     exact ⟨env, envQ, he, hq, hinv, inv_finite hinv⟩
+
+lemma hEL_nil {insQ : List ℚ} : ∀ (i : Nat) (k : Int), ([] : List (Option Int))[i]? = some (some k) → ∀ q, insQ[i]? = some q → (2 : ℚ) ^ k ≤ |q| := by
+  intro i k h; simp at h
+
+theorem overflow_free_refines (hf : WF f) (hL : 4 ≤ Lmax f) (nodes : List Node) (kinds : List Bool) (hk : kindsOfS nodes [] = some kinds)
+    (E : List Int) (hchk : overflowFree f E nodes = true)
+    (lib : Libm) (ins : List Nat) (insQ : List ℚ) (hins : InsRel f ins insQ)
+    (hE : ∀ (i : Nat) (k : Int), E[i]? = some k → ∃ q, insQ[i]? = some q ∧ |q| ≤ 2 ^ k) :
+    ∃ (env : Array Nat) (envQ : List ℚ), evalNodes f lib ins nodes #[] = some env ∧
+      evalNodesQ f (rne (qf f hf.hp)) insQ nodes [] = some envQ ∧ Inv f kinds env envQ ∧
+      (∀ (i : Nat) (v : Nat), env[i]? = some v → kinds[i]? = some false → isFiniteBits f v = true) :=
+  overflow_free_refinesL hf hL nodes kinds hk E [] hchk lib ins insQ hins hE hEL_nil
 
 end FAVerif.Ovf
 
@@ -470,15 +610,16 @@ lemma mapM_rel_rev {f : Fmt} {kinds : List Bool} {env : Array Nat} {envQ : List 
 
 /-- **Unconditional run of a program the analyser accepts**: the bit-exact run exists, is finite everywhere, and its
 outputs denote the outputs of the ℚ-run. -/
-theorem total_run (p : Prog) (hf : WF p.fmt) (hL : 4 ≤ Lmax p.fmt) (kinds : List Bool) (hk : kindsOfS p.nodes [] = some kinds)
-    (E : List Int) (hchk : overflowFree p.fmt E p.nodes = true)
+theorem total_runL (p : Prog) (hf : WF p.fmt) (hL : 4 ≤ Lmax p.fmt) (kinds : List Bool) (hk : kindsOfS p.nodes [] = some kinds)
+    (E : List Int) (EL : List (Option Int)) (hchk : overflowFreeL p.fmt E EL p.nodes = true)
     (lib : Libm) (ins : List Nat) (insQ : List ℚ) (hins : InsRel p.fmt ins insQ)
     (hE : ∀ (i : Nat) (k : Int), E[i]? = some k → ∃ q, insQ[i]? = some q ∧ |q| ≤ 2 ^ k)
+    (hEL : ∀ (i : Nat) (k : Int), EL[i]? = some (some k) → ∀ q, insQ[i]? = some q → (2 : ℚ) ^ k ≤ |q|)
     (qs : List ℚ) (hq : p.evalQ (rne (qf p.fmt hf.hp)) insQ = some qs) :
     ∃ (env : Array Nat) (outs : List Nat), evalNodes p.fmt lib ins p.nodes #[] = some env ∧ p.eval lib ins = some outs ∧
       (∀ (i : Nat) (v : Nat), env[i]? = some v → kinds[i]? = some false → isFiniteBits p.fmt v = true) ∧
       List.Forall₂ (fun (kv : Nat × Nat) (q : ℚ) => ∃ k, kinds[kv.1]? = some k ∧ Rv p.fmt k kv.2 q) (p.outs.zip outs) qs := by
-  obtain ⟨env, envQ, he, hq', hinv, hfin⟩ := overflow_free_refines hf hL p.nodes kinds hk E hchk lib ins insQ hins hE
+  obtain ⟨env, envQ, he, hq', hinv, hfin⟩ := overflow_free_refinesL hf hL p.nodes kinds hk E EL hchk lib ins insQ hins hE hEL
   unfold Prog.evalQ evalQ at hq
   simp only [hq', Option.bind_eq_bind, Option.bind_some] at hq
   obtain ⟨vs, hvs, hall⟩ := mapM_rel_rev hinv p.outs qs hq
@@ -486,6 +627,31 @@ theorem total_run (p : Prog) (hf : WF p.fmt) (hL : 4 ≤ Lmax p.fmt) (kinds : Li
   unfold Prog.eval
   simp only [he, Option.bind_eq_bind, Option.bind_some]
   exact hvs
+
+theorem total_run (p : Prog) (hf : WF p.fmt) (hL : 4 ≤ Lmax p.fmt) (kinds : List Bool) (hk : kindsOfS p.nodes [] = some kinds)
+    (E : List Int) (hchk : overflowFree p.fmt E p.nodes = true)
+    (lib : Libm) (ins : List Nat) (insQ : List ℚ) (hins : InsRel p.fmt ins insQ)
+    (hE : ∀ (i : Nat) (k : Int), E[i]? = some k → ∃ q, insQ[i]? = some q ∧ |q| ≤ 2 ^ k)
+    (qs : List ℚ) (hq : p.evalQ (rne (qf p.fmt hf.hp)) insQ = some qs) :
+    ∃ (env : Array Nat) (outs : List Nat), evalNodes p.fmt lib ins p.nodes #[] = some env ∧ p.eval lib ins = some outs ∧
+      (∀ (i : Nat) (v : Nat), env[i]? = some v → kinds[i]? = some false → isFiniteBits p.fmt v = true) ∧
+      List.Forall₂ (fun (kv : Nat × Nat) (q : ℚ) => ∃ k, kinds[kv.1]? = some k ∧ Rv p.fmt k kv.2 q) (p.outs.zip outs) qs :=
+  total_runL p hf hL kinds hk E [] hchk lib ins insQ hins hE hEL_nil qs hq
+
+lemma hEL_two {a b : Int} {qx qy : ℚ} (hx : (2 : ℚ) ^ a ≤ |qx|) (hy : (2 : ℚ) ^ b ≤ |qy|) :
+    ∀ (i : Nat) (k : Int), [some a, some b][i]? = some (some k) → ∀ q, [qx, qy][i]? = some q → (2 : ℚ) ^ k ≤ |q| := by
+  intro i k h q hq
+  match i with
+  | 0 => simp at h hq; subst h; subst hq; exact hx
+  | 1 => simp at h hq; subst h; subst hq; exact hy
+  | (j + 2) => simp at h
+
+lemma hEL_one {a : Int} {qx : ℚ} (hx : (2 : ℚ) ^ a ≤ |qx|) :
+    ∀ (i : Nat) (k : Int), [some a][i]? = some (some k) → ∀ q, [qx][i]? = some q → (2 : ℚ) ^ k ≤ |q| := by
+  intro i k h q hq
+  match i with
+  | 0 => simp at h hq; subst h; subst hq; exact hx
+  | (j + 1) => simp at h
 
 lemma hE_two {a b : Int} {qx qy : ℚ} (hx : |qx| ≤ 2 ^ a) (hy : |qy| ≤ 2 ^ b) :
     ∀ (i : Nat) (k : Int), [a, b][i]? = some k → ∃ q, [qx, qy][i]? = some q ∧ |q| ≤ 2 ^ k := by
@@ -508,15 +674,16 @@ namespace FAVerif.Ovf
 open FAVerif.IR FAVerif.FP FAVerif.FPQ FAVerif.SoftRound FAVerif.Refine
 
 /-- two float outputs of an accepted program -/
-theorem total2 (p : Prog) (hf : WF p.fmt) (hL : 4 ≤ Lmax p.fmt) (kinds : List Bool) (hk : kindsOfS p.nodes [] = some kinds)
+theorem total2L (p : Prog) (hf : WF p.fmt) (hL : 4 ≤ Lmax p.fmt) (kinds : List Bool) (hk : kindsOfS p.nodes [] = some kinds)
     (hko : ∀ o ∈ p.outs, kinds[o]? = some false)
-    (E : List Int) (hchk : overflowFree p.fmt E p.nodes = true)
+    (E : List Int) (EL : List (Option Int)) (hchk : overflowFreeL p.fmt E EL p.nodes = true)
     (lib : Libm) (ins : List Nat) (insQ : List ℚ) (hins : InsRel p.fmt ins insQ)
     (hE : ∀ (i : Nat) (k : Int), E[i]? = some k → ∃ q, insQ[i]? = some q ∧ |q| ≤ 2 ^ k)
+    (hEL : ∀ (i : Nat) (k : Int), EL[i]? = some (some k) → ∀ q, insQ[i]? = some q → (2 : ℚ) ^ k ≤ |q|)
     (a b : ℚ) (hq : p.evalQ (rne (qf p.fmt hf.hp)) insQ = some [a, b]) :
     ∃ h l : Nat, p.eval lib ins = some [h, l] ∧ isFiniteBits p.fmt h = true ∧ isFiniteBits p.fmt l = true ∧
       toQ p.fmt h = some a ∧ toQ p.fmt l = some b := by
-  obtain ⟨env, outs, he, ho, hfin, hall⟩ := total_run p hf hL kinds hk E hchk lib ins insQ hins hE [a, b] hq
+  obtain ⟨env, outs, he, ho, hfin, hall⟩ := total_runL p hf hL kinds hk E EL hchk lib ins insQ hins hE hEL [a, b] hq
   have hlen : p.outs.length = 2 := by
     unfold Prog.evalQ evalQ at hq
     cases hq' : evalNodesQ p.fmt (rne (qf p.fmt hf.hp)) insQ p.nodes [] with
@@ -559,6 +726,16 @@ theorem total2 (p : Prog) (hf : WF p.fmt) (hL : 4 ≤ Lmax p.fmt) (kinds : List 
           cases hk1; cases hk2
           exact ⟨h, l, ho, (rv_float rv1).1, (rv_float rv2).1, (rv_float rv1).2, (rv_float rv2).2⟩
 
+theorem total2 (p : Prog) (hf : WF p.fmt) (hL : 4 ≤ Lmax p.fmt) (kinds : List Bool) (hk : kindsOfS p.nodes [] = some kinds)
+    (hko : ∀ o ∈ p.outs, kinds[o]? = some false)
+    (E : List Int) (hchk : overflowFree p.fmt E p.nodes = true)
+    (lib : Libm) (ins : List Nat) (insQ : List ℚ) (hins : InsRel p.fmt ins insQ)
+    (hE : ∀ (i : Nat) (k : Int), E[i]? = some k → ∃ q, insQ[i]? = some q ∧ |q| ≤ 2 ^ k)
+    (a b : ℚ) (hq : p.evalQ (rne (qf p.fmt hf.hp)) insQ = some [a, b]) :
+    ∃ h l : Nat, p.eval lib ins = some [h, l] ∧ isFiniteBits p.fmt h = true ∧ isFiniteBits p.fmt l = true ∧
+      toQ p.fmt h = some a ∧ toQ p.fmt l = some b :=
+  total2L p hf hL kinds hk hko E [] hchk lib ins insQ hins hE hEL_nil a b hq
+
 /-- one float output of an accepted program -/
 theorem total1 (p : Prog) (hf : WF p.fmt) (hL : 4 ≤ Lmax p.fmt) (kinds : List Bool) (hk : kindsOfS p.nodes [] = some kinds)
     (o : Nat) (hpo : p.outs = [o]) (hko : kinds[o]? = some false)
@@ -583,5 +760,61 @@ theorem total1 (p : Prog) (hf : WF p.fmt) (hL : 4 ≤ Lmax p.fmt) (kinds : List 
       obtain ⟨k1, hk1, rv1⟩ := r1
       rw [hko] at hk1; cases hk1
       exact ⟨h, ho, (rv_float rv1).1, (rv_float rv1).2⟩
+
+end FAVerif.Ovf
+
+namespace FAVerif.Ovf
+open FAVerif.IR FAVerif.FP FAVerif.FPQ FAVerif.SoftRound FAVerif.Refine
+
+lemma hEL_two' {a b : Option Int} {qx qy : ℚ} (hx : ∀ k, a = some k → (2 : ℚ) ^ k ≤ |qx|) (hy : ∀ k, b = some k → (2 : ℚ) ^ k ≤ |qy|) :
+    ∀ (i : Nat) (k : Int), [a, b][i]? = some (some k) → ∀ q, [qx, qy][i]? = some q → (2 : ℚ) ^ k ≤ |q| := by
+  intro i k h q hq
+  match i with
+  | 0 => simp at h hq; subst hq; exact hx k h
+  | 1 => simp at h hq; subst hq; exact hy k h
+  | (j + 2) => simp at h
+
+lemma hEL_one' {a : Option Int} {qx : ℚ} (hx : ∀ k, a = some k → (2 : ℚ) ^ k ≤ |qx|) :
+    ∀ (i : Nat) (k : Int), [a][i]? = some (some k) → ∀ q, [qx][i]? = some q → (2 : ℚ) ^ k ≤ |q| := by
+  intro i k h q hq
+  match i with
+  | 0 => simp at h hq; subst hq; exact hx k h
+  | (j + 1) => simp at h
+
+/-- two operands, two float outputs, the clamp/scale idiom: the four boxes (|v| ≤ 1 or 1 ≤ |v| ≤ 2^K per operand) cover
+every pair with |x|, |y| ≤ 2^K (K ≥ 0) -/
+theorem total2_boxes (p : Prog) (hf : WF p.fmt) (hL : 4 ≤ Lmax p.fmt) (kinds : List Bool) (hk : kindsOfS p.nodes [] = some kinds)
+    (hko : ∀ o ∈ p.outs, kinds[o]? = some false) (K : Int)
+    (c00 : overflowFreeL p.fmt [0, 0] [none, none] p.nodes = true) (c10 : overflowFreeL p.fmt [K, 0] [some 0, none] p.nodes = true)
+    (c01 : overflowFreeL p.fmt [0, K] [none, some 0] p.nodes = true) (c11 : overflowFreeL p.fmt [K, K] [some 0, some 0] p.nodes = true)
+    (lib : Libm) (x y : Nat) (qx qy : ℚ) (hins : InsRel p.fmt [x, y] [qx, qy]) (bx : |qx| ≤ 2 ^ K) (bY : |qy| ≤ 2 ^ K)
+    (a b : ℚ) (hq : p.evalQ (rne (qf p.fmt hf.hp)) [qx, qy] = some [a, b]) :
+    ∃ h l : Nat, p.eval lib [x, y] = some [h, l] ∧ isFiniteBits p.fmt h = true ∧ isFiniteBits p.fmt l = true ∧
+      toQ p.fmt h = some a ∧ toQ p.fmt l = some b := by
+  have one : ((2 : ℚ) ^ (0 : ℤ)) = 1 := by norm_num
+  by_cases hx1 : |qx| ≤ 1 <;> by_cases hy1 : |qy| ≤ 1
+  · exact total2L p hf hL kinds hk hko [0, 0] [none, none] c00 lib [x, y] [qx, qy] hins (hE_two (by rw [one]; exact hx1) (by rw [one]; exact hy1))
+      (hEL_two' (fun k h => by cases h) (fun k h => by cases h)) a b hq
+  · exact total2L p hf hL kinds hk hko [0, K] [none, some 0] c01 lib [x, y] [qx, qy] hins (hE_two (by rw [one]; exact hx1) bY)
+      (hEL_two' (fun k h => by cases h) (fun k h => by cases h; rw [one]; exact (not_le.mp hy1).le)) a b hq
+  · exact total2L p hf hL kinds hk hko [K, 0] [some 0, none] c10 lib [x, y] [qx, qy] hins (hE_two bx (by rw [one]; exact hy1))
+      (hEL_two' (fun k h => by cases h; rw [one]; exact (not_le.mp hx1).le) (fun k h => by cases h)) a b hq
+  · exact total2L p hf hL kinds hk hko [K, K] [some 0, some 0] c11 lib [x, y] [qx, qy] hins (hE_two bx bY)
+      (hEL_two' (fun k h => by cases h; rw [one]; exact (not_le.mp hx1).le) (fun k h => by cases h; rw [one]; exact (not_le.mp hy1).le)) a b hq
+
+/-- one operand, two float outputs -/
+theorem total2_boxes1 (p : Prog) (hf : WF p.fmt) (hL : 4 ≤ Lmax p.fmt) (kinds : List Bool) (hk : kindsOfS p.nodes [] = some kinds)
+    (hko : ∀ o ∈ p.outs, kinds[o]? = some false) (K : Int)
+    (c0 : overflowFreeL p.fmt [0] [none] p.nodes = true) (c1 : overflowFreeL p.fmt [K] [some 0] p.nodes = true)
+    (lib : Libm) (x : Nat) (qx : ℚ) (hins : InsRel p.fmt [x] [qx]) (bx : |qx| ≤ 2 ^ K)
+    (a b : ℚ) (hq : p.evalQ (rne (qf p.fmt hf.hp)) [qx] = some [a, b]) :
+    ∃ h l : Nat, p.eval lib [x] = some [h, l] ∧ isFiniteBits p.fmt h = true ∧ isFiniteBits p.fmt l = true ∧
+      toQ p.fmt h = some a ∧ toQ p.fmt l = some b := by
+  have one : ((2 : ℚ) ^ (0 : ℤ)) = 1 := by norm_num
+  by_cases hx1 : |qx| ≤ 1
+  · exact total2L p hf hL kinds hk hko [0] [none] c0 lib [x] [qx] hins (hE_one (by rw [one]; exact hx1))
+      (hEL_one' (fun k h => by cases h)) a b hq
+  · exact total2L p hf hL kinds hk hko [K] [some 0] c1 lib [x] [qx] hins (hE_one bx)
+      (hEL_one' (fun k h => by cases h; rw [one]; exact (not_le.mp hx1).le)) a b hq
 
 end FAVerif.Ovf
